@@ -253,11 +253,20 @@ func pipeRun(args []string) error {
 				e["sinkSha"] = shaID(b)
 				e["sinkLen"] = len(b)
 				// the frame of the last life of the Writer (bytes written after the last Reset)
-				if len(segs) > 0 && segs[len(segs)-1].SinkStart <= len(b) {
-					last := b[segs[len(segs)-1].SinkStart:]
+				// (a history that ends with Reset has an empty last segment: the last one that holds bytes is meant)
+				k := len(segs) - 1
+				for k > 0 && (segs[k].SinkStart >= len(b) || segs[k].SinkEnd == segs[k].SinkStart) {
+					k--
+				}
+				if k >= 0 && segs[k].SinkStart <= len(b) {
+					end, inEnd := len(b), len(input)
+					if k < len(segs)-1 {
+						end, inEnd = segs[k].SinkEnd, segs[k].InEnd
+					}
+					last := b[segs[k].SinkStart:end]
 					e["lastSegSha"] = shaID(last)
 					lp := ref.ParseFrame(last, true)
-					e["lastSegOK"] = lp.Status == "ok" && bytes.Equal(lp.Content, input[segs[len(segs)-1].InStart:])
+					e["lastSegOK"] = lp.Status == "ok" && bytes.Equal(lp.Content, input[segs[k].InStart:inEnd])
 				}
 			} else {
 				// the source frame is written without hooks interfering: sequential Writer
